@@ -8,7 +8,7 @@ Independent compilations as such are not encodable; that the derive's own string
 DESIGN.md 4 (C13) and is outside this check.
 """
 from .common import *
-from . import c03, c05
+from . import c03, c05, c06
 
 
 def main():
@@ -33,11 +33,14 @@ def main():
     for perm in range(6):
         items5.append(dict(k=3, doc0='fixed', body0=0, imps=[[1], [0, 2], [0]], docs=[[0], [0], [0]], generic=[], perms=[perm]))
     res5 = par.pmap(c05.explore, items5)
-    cand5 = []
+    cand5, cand5_i = [], []
     for r in res5:
         cand5 += r.pop('violations', [])
+        cand5_i += r.pop('violations_ident', [])
         r.pop('known_hits', None)
         rep.absorb(r)
+    if cand5 and not cand5_i:
+        cand5 = []          # consistently ordered by identifier: see props/c05.py
     seen = {}
     for c in cand5:
         seen.setdefault(c['what'], c)
@@ -50,6 +53,29 @@ def main():
         else:
             rep.inconclusive.append(f'engine counterexample does not reproduce natively: {c["what"]}')
     rep.functions += describe(c05.G['fns'], ['export_and_merge', 'merge'])
+    # which call reaches a shared dependency / a shared file first: two-call histories over the entry points (reduced C06 cells)
+    c06.W.setup()
+    c06.G['time_budget'] = 2400 if quick else 9000
+    items6 = [('plain', 2, [None], ['bindings/'], ['empty'], (e, t)) for e in range(3) for t in range(4)]
+    if not quick:
+        items6 += [('plain', 3, [None], ['bindings/'], ['empty'], (e, t)) for e in range(3) for t in range(3)]
+    cand6 = []
+    for r in par.pmap(c06.explore, items6):
+        cand6 += r.pop('violations', [])
+        rep.absorb(r)
+    seen6 = {}
+    for c in cand6:
+        seen6.setdefault(re.sub(r'\[.*', '', c['why'])[:60], c)
+    for c in list(seen6.values())[:4]:
+        is_viol, details = c06.native_check(c)
+        c['native'] = details
+        hist = [(e, c06.universe()[t].name) for e, t, _ in c['steps']]
+        if is_viol:
+            rep.violations.append({'what': f'directory contents depend on which call came first: {c["why"]} | history {hist} | native: {details["why"]}',
+                                   'witness': c, 'key': 'history/' + c['why'][:60]})
+        else:
+            rep.inconclusive.append(f'engine counterexample does not reproduce natively: {c["why"]} {c["steps"]}')
+    rep.bounds['call_histories'] = 'every history of 2 (thorough: 3) entry-point calls over the C06 universe, default directory spelling (reduced C06 cells)'
     rep.bounds['shared_file_orders'] = 'K=2 and K=3 types, every permutation, canonical file after every prefix (reduced C05 cells)'
     rep.outside += ['independent compilations / fresh macro processes as such', 'hash-order dependence inside the derive that changes a '
                     'generated *string* (only visit order and where-clause order consume Dependencies\' HashSet order at the pinned commit)',
